@@ -97,7 +97,7 @@ type vh07Obs struct {
 	_       float64 `json:"-"`
 }
 
-var vh07Rels = []string{"samefid", "twofids", "crossconn", "parentchild", "childparent", "siblings"}
+var vh07Rels = []string{"samefid", "twofids", "crossconn", "parentchild", "childparent", "siblings", "entrychild", "entryparent"}
 
 func vh07Seed(fs *vhgFS) {
 	fs.add("/d", ModeDirectory|0o755, "")
@@ -150,6 +150,16 @@ func vh07Pick(a, b *vh07Req, rel string) (pa, pb string, ok bool) {
 		}
 		p := byType(t, false)
 		return p, p, true
+	case "entrychild": // the second request works on the very entry the first one names
+		if a.entry("a") == "" || (b.target != "file" && b.target != "any") {
+			return "", "", false
+		}
+		return "/d/c", "/d/c/" + a.entry("a"), true
+	case "entryparent":
+		if b.entry("b") == "" || (a.target != "file" && a.target != "any") {
+			return "", "", false
+		}
+		return "/d/c/" + b.entry("b"), "/d/c", true
 	case "parentchild":
 		if a.target != "dir" && a.target != "any" {
 			return "", "", false
@@ -239,7 +249,7 @@ func vh07One(a, b *vh07Req, rel string, wait time.Duration, tries int) vh07Obs {
 			return f, nil
 		}
 		flagsFor := func(p string) OpenFlags {
-			if p == "/d/f" || p == "/d/g" {
+			if p == "/d/f" || p == "/d/g" || strings.HasPrefix(p, "/d/c/") {
 				return ReadWrite
 			}
 			return ReadOnly
